@@ -285,3 +285,217 @@ End AssocEqCol.
 
 Lemma N_eqb_eq' x y : N.eqb x y = true <-> x = y.
 Proof. apply N.eqb_eq. Qed.
+
+(* ================================================================== *)
+(* 2. rooms: the domain of names, semantic lookup, the invariant       *)
+(* ================================================================== *)
+
+(* room names of the property's domain: None, non-empty strings, non-zero integers
+   (hashable, truthy, non-sequence); on them Python == is Leibniz equality *)
+Definition room_okb (r : pv) : bool :=
+  match r with PNone => true | PStr (_ :: _) => true | PInt z => negb (Z.eqb z 0) | _ => false end.
+Definition room_ok (r : pv) : Prop := room_okb r = true.
+
+Lemma room_spec x y : room_ok x -> room_ok y -> (room_eqb x y = true <-> x = y).
+Proof.
+  unfold room_ok, room_eqb.
+  destruct x, y; cbn; try discriminate; intros _ _; split; intro H;
+    try discriminate; try reflexivity.
+  - apply Z.eqb_eq in H. congruence.
+  - inversion H. apply Z.eqb_refl.
+  - apply str_eqb_eq in H. congruence.
+  - inversion H. apply str_eqb_refl.
+Qed.
+Lemma room_ok_None : room_ok PNone. Proof. reflexivity. Qed.
+Lemma room_ok_sid s : s <> [] -> room_ok (PStr s).
+Proof. destruct s; [congruence|reflexivity]. Qed.
+Lemma room_refl r : room_ok r -> room_eqb r r = true.
+Proof. intro H. apply room_spec; auto. Qed.
+Lemma room_neq r r' : room_ok r -> room_ok r' -> r <> r' -> room_eqb r r' = false.
+Proof. apply (dom_neq room_eqb room_ok room_spec). Qed.
+Lemma str_neq a b : a <> b -> str_eqb a b = false.
+Proof. apply (eq_neq_b str_eqb str_eqb_eq). Qed.
+
+(* total lookups: a missing namespace / room is an empty one *)
+Definition nsmap (m : mgr) (ns : str) : roommap := agetd (V:=roommap) str_eqb [] (rooms m) ns.
+Definition look (m : mgr) (ns : str) (r : pv) : bidict := agetd (V:=bidict) room_eqb [] (nsmap m ns) r.
+Definition mem (m : mgr) (ns : str) (r : pv) (sid : str) : option str := bd_get (look m ns r) sid.
+
+Lemma look_room_of m ns r : look m ns r = match room_of m ns r with Some b => b | None => [] end.
+Proof.
+  unfold look, nsmap, room_of, ns_rooms, agetd.
+  destruct (aget str_eqb (rooms m) ns); reflexivity.
+Qed.
+Lemma mem_ext m m' : rooms m' = rooms m -> mem m' = mem m.
+Proof. unfold mem, look, nsmap. intros ->. reflexivity. Qed.
+
+Definition bd_ok (b : bidict) : Prop := NoDup (map fst b).
+Definition rm_ok (rm : roommap) : Prop :=
+  NoDup (map fst rm) /\ keysP room_ok rm /\ Forall bd_ok (map snd rm).
+(* (1) distinct keys at every level, room names in the domain *)
+Definition Struct (m : mgr) : Prop :=
+  NoDup (map fst (rooms m)) /\ Forall rm_ok (map snd (rooms m)) /\ NoDup (map fst (pending m)).
+(* (3) every member of a room is a member of the namespace, with the same transport;
+   (2) transports are distinct inside a namespace *)
+Definition Sem (m : mgr) : Prop :=
+  (forall ns r s e, room_ok r -> mem m ns r s = Some e -> mem m ns PNone s = Some e) /\
+  (forall ns s s' e, mem m ns PNone s = Some e -> mem m ns PNone s' = Some e -> s = s').
+Definition WF (m : mgr) : Prop := Struct m /\ Sem m.
+
+Lemma rm_ok_nil : rm_ok []. Proof. repeat split; constructor. Qed.
+Lemma bd_ok_nil : bd_ok []. Proof. constructor. Qed.
+Lemma struct_nsmap m ns : Struct m -> rm_ok (nsmap m ns).
+Proof. intros (_ & H & _). unfold nsmap. apply vals_agetd; [exact H|exact rm_ok_nil]. Qed.
+Lemma struct_look m ns r : Struct m -> bd_ok (look m ns r).
+Proof.
+  intro H. destruct (struct_nsmap m ns H) as (_ & _ & Hb). unfold look.
+  apply vals_agetd; [exact Hb|exact bd_ok_nil].
+Qed.
+Lemma rm_ok_aset rm room b : rm_ok rm -> room_ok room -> bd_ok b -> rm_ok (aset room_eqb rm room b).
+Proof.
+  intros (H1 & H2 & H3) Hr Hb. repeat split.
+  - apply (nodup_aset room_eqb room_ok room_spec); assumption.
+  - apply keysP_aset; assumption.
+  - apply vals_aset; assumption.
+Qed.
+Lemma rm_ok_acol rm room b : rm_ok rm -> room_ok room -> bd_ok b -> rm_ok (acol room_eqb rm room b).
+Proof.
+  intros (H1 & H2 & H3) Hr Hb. repeat split.
+  - apply (nodup_acol room_eqb room_ok room_spec); assumption.
+  - apply keysP_acol; assumption.
+  - apply vals_acol; assumption.
+Qed.
+Lemma struct_set_aset m ns rm : Struct m -> rm_ok rm -> Struct (set_rooms m (aset str_eqb (rooms m) ns rm)).
+Proof.
+  intros (H1 & H2 & H3) Hr. unfold Struct; cbn [set_rooms rooms pending]. repeat split.
+  - apply (e_nodup_aset str_eqb str_eqb_eq); assumption.
+  - apply vals_aset; assumption.
+  - exact H3.
+Qed.
+Lemma struct_set_acol m ns rm : Struct m -> rm_ok rm -> Struct (set_rooms m (acol str_eqb (rooms m) ns rm)).
+Proof.
+  intros (H1 & H2 & H3) Hr. unfold Struct; cbn [set_rooms rooms pending]. repeat split.
+  - apply (e_nodup_acol str_eqb str_eqb_eq); assumption.
+  - apply vals_acol; assumption.
+  - exact H3.
+Qed.
+
+Lemma look_aset2 m ns room b' ns' r' :
+  Struct m -> room_ok room -> room_ok r' ->
+  look (set_rooms m (aset str_eqb (rooms m) ns (aset room_eqb (nsmap m ns) room b'))) ns' r'
+  = if str_eqb ns ns' then (if room_eqb room r' then b' else look m ns r') else look m ns' r'.
+Proof.
+  intros HS Hr Hr'. unfold look at 1. unfold nsmap at 1. cbn [set_rooms rooms].
+  rewrite (e_agetd_aset str_eqb str_eqb_eq). destruct (str_eqb ns ns') eqn:E; [|reflexivity].
+  rewrite (agetd_aset room_eqb room_ok room_spec); auto.
+  apply (struct_nsmap m ns HS).
+Qed.
+Lemma look_acol2 m ns room b' ns' r' :
+  Struct m -> room_ok room -> room_ok r' ->
+  look (set_rooms m (acol str_eqb (rooms m) ns (acol room_eqb (nsmap m ns) room b'))) ns' r'
+  = if str_eqb ns ns' then (if room_eqb room r' then b' else look m ns r') else look m ns' r'.
+Proof.
+  intros HS Hr Hr'. unfold look at 1. unfold nsmap at 1. cbn [set_rooms rooms].
+  rewrite (e_agetd_acol str_eqb str_eqb_eq) by apply HS.
+  destruct (str_eqb ns ns') eqn:E; [|reflexivity].
+  destruct (struct_nsmap m ns HS) as (H1 & H2 & _).
+  rewrite (agetd_acol room_eqb room_ok room_spec); auto.
+Qed.
+
+Lemma bd_get_aset b sid eio s' :
+  bd_get (aset str_eqb b sid eio) s' = if str_eqb sid s' then Some eio else bd_get b s'.
+Proof. apply (e_aget_aset str_eqb str_eqb_eq). Qed.
+Lemma bd_get_adel b sid s' :
+  bd_ok b -> bd_get (adel str_eqb b sid) s' = if str_eqb sid s' then None else bd_get b s'.
+Proof. apply (e_aget_adel str_eqb str_eqb_eq). Qed.
+Lemma bd_get_in b s e : bd_ok b -> (bd_get b s = Some e <-> In (s, e) b).
+Proof. apply (e_aget_in str_eqb str_eqb_eq). Qed.
+Lemma bd_inv_some b e s : bd_inv b e = Some s -> In (s, e) b.
+Proof.
+  induction b as [|[s0 e0] r IH]; cbn [bd_inv]; [discriminate|].
+  destruct (str_eqb e0 e) eqn:E; intro H.
+  - apply str_eqb_eq in E. inversion H; subst. left; reflexivity.
+  - right; auto.
+Qed.
+Lemma bd_inv_none b e s : bd_inv b e = None -> ~ In (s, e) b.
+Proof.
+  induction b as [|[s0 e0] r IH]; cbn [bd_inv]; [intros _ []|].
+  destruct (str_eqb e0 e) eqn:E; [discriminate|]. intros H [Hi|Hi]; [|exact (IH H Hi)].
+  inversion Hi; subst. rewrite str_eqb_refl in E. discriminate.
+Qed.
+
+(* the two shapes of change of the membership function *)
+Definition ins_eq (m m' : mgr) (ns : str) (room : pv) (sid eio : str) : Prop :=
+  forall ns' r' s', room_ok r' ->
+    mem m' ns' r' s' = if str_eqb ns ns' && room_eqb room r' && str_eqb sid s' then Some eio
+                       else mem m ns' r' s'.
+Definition rem_eq (m m' : mgr) (g : str -> pv -> str -> bool) : Prop :=
+  forall ns' r' s', room_ok r' -> mem m' ns' r' s' = if g ns' r' s' then None else mem m ns' r' s'.
+Definition same_mem (m m' : mgr) : Prop :=
+  forall ns' r' s', room_ok r' -> mem m' ns' r' s' = mem m ns' r' s'.
+
+Lemma sem_same m m' : same_mem m m' -> Sem m -> Sem m'.
+Proof.
+  intros E (H3 & H2). split.
+  - intros ns r s e Hr H. rewrite E in * by (auto using room_ok_None). eapply H3; eauto.
+  - intros ns s s' e Ha Hb. rewrite E in * by apply room_ok_None. eapply H2; eauto.
+Qed.
+
+Lemma sem_insert m m' ns room sid eio :
+  room_ok room -> Sem m -> ins_eq m m' ns room sid eio ->
+  (room = PNone -> (mem m ns PNone sid = None \/ mem m ns PNone sid = Some eio) /\
+                   forall s', mem m ns PNone s' = Some eio -> s' = sid) ->
+  (room <> PNone -> mem m ns PNone sid = Some eio) ->
+  Sem m'.
+Proof.
+  intros Hroom (H3 & H2) E HN HR. split.
+  - intros ns' r' s' e Hr' H. rewrite E in H by assumption. rewrite E by apply room_ok_None.
+    destruct (str_eqb ns ns') eqn:E1; cbn [andb] in *; [apply str_eqb_eq in E1; subst ns'|eauto].
+    destruct (str_eqb sid s') eqn:E3; [apply str_eqb_eq in E3; subst s'|rewrite !andb_false_r in *; eauto].
+    rewrite !andb_true_r in *.
+    destruct (room_eqb room r') eqn:E2.
+    + apply room_spec in E2; auto. subst r'. inversion H; subst e.
+      destruct (room_eqb room PNone) eqn:E4; [reflexivity|].
+      apply HR. intro; subst. rewrite room_refl in E4; [discriminate|assumption].
+    + specialize (H3 _ _ _ _ Hr' H).
+      destruct (room_eqb room PNone) eqn:E4; [|exact H3].
+      apply room_spec in E4; auto using room_ok_None.
+      destruct (HN E4) as [[Hn|Hn] _]; congruence.
+  - intros ns' s s' e Ha Hb. rewrite E in Ha, Hb by apply room_ok_None.
+    destruct (str_eqb ns ns') eqn:E1; cbn [andb] in *; [apply str_eqb_eq in E1; subst ns'|eauto].
+    destruct (room_eqb room PNone) eqn:E4; cbn [andb] in *; [|eauto].
+    apply room_spec in E4; auto using room_ok_None. destruct (HN E4) as [_ Hu].
+    destruct (str_eqb sid s) eqn:Ea; destruct (str_eqb sid s') eqn:Eb.
+    + apply str_eqb_eq in Ea, Eb. congruence.
+    + apply str_eqb_eq in Ea. inversion Ha; subst. symmetry. auto.
+    + apply str_eqb_eq in Eb. inversion Hb; subst. auto.
+    + eauto.
+Qed.
+
+Lemma sem_remove m m' g :
+  Sem m -> rem_eq m m' g ->
+  (forall ns r s, room_ok r -> g ns PNone s = true -> g ns r s = true) ->
+  Sem m'.
+Proof.
+  intros (H3 & H2) E Hg. split.
+  - intros ns r s e Hr H. rewrite E in H by assumption. rewrite E by apply room_ok_None.
+    destruct (g ns r s) eqn:G; [discriminate|].
+    destruct (g ns PNone s) eqn:G0; [rewrite (Hg _ _ _ Hr G0) in G; discriminate|eauto].
+  - intros ns s s' e Ha Hb. rewrite E in Ha, Hb by apply room_ok_None.
+    destruct (g ns PNone s); [discriminate|]. destruct (g ns PNone s'); [discriminate|]. eauto.
+Qed.
+
+Lemma WF_init : WF mgr_init.
+Proof.
+  split; [repeat split; constructor|]. split.
+  - intros ns r s e _ H. discriminate H.
+  - intros ns s s' e H. discriminate H.
+Qed.
+
+Lemma WF_ext m m' :
+  rooms m' = rooms m -> NoDup (map fst (pending m')) -> WF m -> WF m'.
+Proof.
+  intros Er Hp ((H1 & H2 & _) & HS). split.
+  - unfold Struct. rewrite Er. auto.
+  - unfold Sem. rewrite (mem_ext _ _ Er). exact HS.
+Qed.
